@@ -264,6 +264,11 @@ func ruleR14(c *Ctx) *RuleResult {
 				}
 				linked := hasPtrField(it, "element")
 				var badElem []string
+				// invariant "the element pointer is nil whenever the index is outside 0..n-1": established iff every path of
+				// Next, Prev and Begin that leaves the range stores nil into it. Only under this invariant may a mover anchor
+				// on "element == nil" instead of on the index (two edits that are each harmless — anchoring on nil, and no
+				// longer clearing on leave — break the cursor together).
+				nilOutside := linked && elementNilOutsideRange(c, ms, ownerF, ownerT)
 				for _, g0 := range gc.GCs {
 					g := substSize(g0, sizeStr)
 					n := countIndexStores(g)
@@ -354,9 +359,12 @@ func ruleR14(c *Ctx) *RuleResult {
 							isAnchor := elemVal != nil && elemVal.Op == "load" && elemVal.Args[0].Op == "fa" && elemVal.Args[0].Leaf == anchor && hasField(elemVal, ownerF)
 							isFollow := elemVal != nil && elemVal.Op == "load" && elemVal.Args[0].Op == "fa" && elemVal.Args[0].Leaf == follow && hasField(elemVal.Args[0].Args[0], "element")
 							switch {
-							case isAnchor && (atEdge || elemNil):
+							case isAnchor && atEdge:
+							case isAnchor && elemNil && nilOutside:
 							case isFollow && !atEdge && !elemNil:
-							case isFollow && elemNonNil:
+							case isFollow && elemNonNil && nilOutside:
+							case (elemNil || elemNonNil) && !nilOutside:
+								badElem = append(badElem, fmt.Sprintf("%s decides by 'element == nil' whether to re-anchor, but the element pointer is not cleared on every path that leaves the range (Next/Prev/Begin): after running off one end the stale pointer is followed — %s", dir, trunc(g.String(), 240)))
 							default:
 								badElem = append(badElem, fmt.Sprintf("%s inside the range must set the element to list.%s at the edge (or when it was nil) and to element.%s otherwise: %s", dir, anchor, follow, trunc(g.String(), 300)))
 							}
@@ -660,4 +668,39 @@ func checkToLoop(c *Ctx, it *types.Named, fn *ssa.Function, name string) []strin
 		bad = append(bad, fmt.Sprintf("expected exactly the paths entry/hit/miss/exhausted, found %d/%d/%d/%d", nEntry, nTrue, nLoop, nFalse))
 	}
 	return bad
+}
+
+// elementNilOutsideRange: every path of Next/Prev that returns false (left the range), and Begin, store nil into the element pointer.
+func elementNilOutsideRange(c *Ctx, ms map[string]*ssa.Function, ownerF string, ownerT *types.Named) bool {
+	for _, name := range []string{"Next", "Prev", "Begin"} {
+		fn := ms[name]
+		if fn == nil {
+			continue
+		}
+		sizeStr := sizeTermOf(c, fn, ownerF, ownerT)
+		for _, g0 := range c.GC(fn).GCs {
+			g := substSize(g0, sizeStr)
+			leaves := name == "Begin"
+			if g.Exit.Op == "return" && len(g.Exit.Args) == 1 {
+				n := countIndexStores(g)
+				f := cursorFactsOf(g, n)
+				if g.Exit.Args[0].String() == "#:false" || f.newOut {
+					leaves = true
+				}
+			}
+			if !leaves {
+				continue
+			}
+			cleared := false
+			for _, ef := range g.Effects {
+				if storeToField(ef, "element") && ef.Args[0].Args[0].String() == "p:0" && ef.Args[1].String() == "#:nil" {
+					cleared = true
+				}
+			}
+			if !cleared {
+				return false
+			}
+		}
+	}
+	return true
 }
